@@ -16,7 +16,10 @@ META = dict(
                "C29-closed-without-established). Proved for event histories of any length (invariant, induction over the history): in every history "
                "in which each operation delivers fewer than max_events callbacks and disconnect() is not called between requested and established, "
                "the monitor accepts (order, exactly once, nothing unrequested, requested / established / closed reported in the operation in which "
-               "the link starts / has its first event / ends). Not monitored: completeness of `changed` callbacks (C21 / C28 own the events that cause them).",
+               "the link starts / has its first event / ends, and closed carries a reason that is a cause of the end of THIS connection as far as the "
+               "trace shows it - clause closed_reason: 0x08 resp. the argument of disconnect() / 0x16 once it was called, 0x22 if a procedure response "
+               "timer may run, in a connection event also 0x28 after an instant based PDU and the error code of a delivered LL_TERMINATE_IND; all of it "
+               "reset when a connection starts, so a reason left over from an earlier connection is rejected). Not monitored: completeness of `changed` callbacks (C21 / C28 own the events that cause them).",
     design_ref="DESIGN.md section 6 C29, docs/C29.md, docs/LL_MODEL.md, docs/C30.md (the ring itself)",
     technique="Coq state-machine model + invariant proof over unbounded histories + refutation witnesses by vm_compute; executable lifecycle monitor on "
               "the implementation's traces; bursts of 0..7 callback producing PDUs in one connection event for every kind of callback and every way a "
